@@ -7,7 +7,7 @@ import glob, os, re, sys
 here = os.path.dirname(os.path.abspath(__file__))
 root = os.path.join(here, "..")
 files = sorted(glob.glob(os.path.join(root, "slices", "*.vs")) + glob.glob(os.path.join(root, "env", "*.vs")))
-item_re = re.compile(r"^//@item (\S+) (.*?)( : (trusted|plain))?\s*$")
+item_re = re.compile(r"^//@item\?? (\S+) (.*?)( : (trusted|plain))?\s*$")
 def norm(lines):
     t = " ".join(re.sub(r"//\s*@obl.*$", "", l) for l in lines)
     t = re.sub(r"//[^\n]*", "", t)  # comments inside contracts are stripped line-wise below
